@@ -51,6 +51,8 @@ pub(crate) struct Evaluator {
     nth: AtomicUsize,
     executed: Arc<AtomicUsize>,
     best_candidate_size: Arc<AtomicMin>,
+    #[cfg(feature = "verif")]
+    verif_id: usize,
     /// images are sent to the caller thread for evaluation
     #[cfg(feature = "parallel")]
     eval_channel: (Sender<Candidate>, Receiver<Candidate>),
@@ -69,6 +71,13 @@ impl Evaluator {
     ) -> Self {
         #[cfg(feature = "parallel")]
         let eval_channel = unbounded();
+        #[cfg(feature = "verif")]
+        let verif_id = crate::verif::next_eval_id();
+        #[cfg(feature = "verif")]
+        if let Some(tap) = crate::verif::tap() {
+            let filters: Vec<_> = filters.iter().copied().collect();
+            tap.evaluator(verif_id, &filters, deflater, final_round);
+        }
         Self {
             deadline,
             filters,
@@ -78,6 +87,8 @@ impl Evaluator {
             nth: AtomicUsize::new(0),
             executed: Arc::new(AtomicUsize::new(0)),
             best_candidate_size: Arc::new(AtomicMin::new(None)),
+            #[cfg(feature = "verif")]
+            verif_id,
             #[cfg(feature = "parallel")]
             eval_channel,
             #[cfg(not(feature = "parallel"))]
@@ -108,6 +119,10 @@ impl Evaluator {
 
     /// Set best size, if known in advance
     pub fn set_best_size(&self, size: usize) {
+        #[cfg(feature = "verif")]
+        if let Some(tap) = crate::verif::tap() {
+            tap.best_size(self.verif_id, size);
+        }
         self.best_candidate_size.set_min(size);
     }
 
@@ -120,6 +135,12 @@ impl Evaluator {
     /// Check if the image is smaller than others, with a description for verbose mode
     pub fn try_image_with_description(&self, image: Arc<PngImage>, description: &str) {
         let nth = self.nth.fetch_add(1, SeqCst);
+        #[cfg(feature = "verif")]
+        let verif_id = self.verif_id;
+        #[cfg(feature = "verif")]
+        if let Some(tap) = crate::verif::tap() {
+            tap.candidate(verif_id, nth, description, &image);
+        }
         // These clones are only cheap refcounts
         let deadline = self.deadline.clone();
         let filters = self.filters.clone();
@@ -143,10 +164,27 @@ impl Evaluator {
             // and the best result later without need for locks.
             filters_iter.for_each(|&filter| {
                 if deadline.passed() {
+                    #[cfg(feature = "verif")]
+                    if let Some(tap) = crate::verif::tap() {
+                        tap.skipped(verif_id, nth, filter);
+                    }
                     return;
                 }
                 let filtered = image.filter_image(filter, optimize_alpha);
+                #[cfg(feature = "verif")]
+                if let Some(tap) = crate::verif::tap() {
+                    tap.sched_point(verif_id, crate::verif::SchedPoint::Read, nth, filter);
+                }
                 let idat_data = deflater.deflate(&filtered, best_candidate_size.get());
+                #[cfg(feature = "verif")]
+                if let Some(tap) = crate::verif::tap() {
+                    let size = idat_data
+                        .as_ref()
+                        .ok()
+                        .map(|d| image.estimated_output_size(d));
+                    tap.trial(verif_id, nth, filter, size);
+                    tap.sched_point(verif_id, crate::verif::SchedPoint::Publish, nth, filter);
+                }
                 if let Ok(idat_data) = idat_data {
                     let estimated_output_size = image.estimated_output_size(&idat_data);
                     // For the final round we need the IDAT data, otherwise the filtered data
